@@ -227,3 +227,47 @@ def add_query(rep, name, constraints, expect="unsat", key=None, detail="", engin
 def describe_path(r, maxc=8):
     calls = [e.callee.split("::")[-1] for e in r.events if e.kind in ("call", "await")]
     return {"status": r.status, "decisions": r.decisions[:40], "calls": calls[:40]}
+
+
+def wrapper_variant_unit(rep, ctx, type_name, fn, variant, key, payload_arg=None):
+    """An actor wrapper `fn` (async) sends exactly the message `variant` - carrying its own argument when it has one - with the waiting send,
+    and returns the actor's reply as received. The obligations of the checks name these wrappers; this decides what is behind the name."""
+    from p_c08 import derives
+    try:
+        w = ctx.method(type_name, fn) + "::{closure#0}"
+    except Inconclusive as ex:
+        rep.add(Query("wrapper %s::%s located" % (type_name, fn), "inconclusive", str(ex), 0, "mirsym", key=key))
+        return
+    if w not in ctx.idx.files:
+        rep.add(Query("wrapper %s::%s located" % (type_name, fn), "inconclusive", "no async body", 0, "mirsym", key=key))
+        return
+    eng = ctx.engine(loop_bound=2, max_paths=2000)
+    n = 0
+    for i, r in enumerate(eng.explore(w)):
+        if r.status != "return":
+            continue
+        env = origin(r.args[0])
+        sends = [e for e in r.events if e.kind == "await" and re.search(r"mpsc::Sender::send$", e.callee)]
+        lossy = [e.callee.split("::")[-1] for e in r.events if e.kind == "call" and re.search(r"mpsc::\w*Sender::(try_send|send_timeout|blocking_send)$", e.callee)]
+        is_err = isinstance(r.ret, Agg) and r.ret.variant == "Err"
+        if is_err and not lossy:
+            continue
+        n += 1
+        msg = sends[0].rargs[1] if sends and len(sends[0].rargs) > 1 else None
+        ok = len(sends) == 1 and not lossy and isinstance(msg, Agg) and msg.variant == variant
+        detail = "sends %s" % ([getattr(e.rargs[1], "variant", "?") for e in sends if len(e.rargs) > 1] + lossy)
+        if ok and payload_arg is not None:
+            arg = env.child(("f", payload_arg))
+            ok = any(same_origin(f, arg) or derives(f, arg, r.events) for f in msg.fields)
+            detail += "; payload is the wrapper's argument: %s" % ok
+        if ok:
+            rx = [e for e in r.events if e.kind == "await" and r.events.index(e) > r.events.index(sends[0])]
+            ok = bool(rx)
+            if ok and not (isinstance(r.ret, Agg) and r.ret.variant == "Ok" and r.ret.fields and isinstance(r.ret.fields[0], Agg) and r.ret.fields[0].kind == "tuple" and not r.ret.fields[0].fields):
+                o = origin(r.ret.fields[0]) if isinstance(r.ret, Agg) and r.ret.fields else origin(r.ret)
+                ok = derives(o, rx[-1].ret, r.events) or (isinstance(o, Sym) and isinstance(o.tag, tuple) and o.tag[0] == "map_err" and derives(o.tag[1], rx[-1].ret, r.events))
+                detail += "; returns the reply: %s" % ok
+        rep.add(Query("wrapper %s path %d: sends %s (waiting send%s) and returns the actor's reply" % (fn, i, variant, ", carrying its argument" if payload_arg is not None else ""), "holds" if ok else "violated", detail, 0, "mirsym",
+                      key=key, reproduced=None))
+    rep.functions_encoded.append(w)
+    rep.add(Query("witness: wrapper %s has a completing path" % fn, "witness-hit" if n else "witness-missed", "%d" % n, 0, "mirsym"))
